@@ -5,7 +5,7 @@ import sys
 
 from vk import run as _run
 
-ORACLES = ["gf2"]
+ORACLES = ["gf2", "gf2m"]
 
 
 def main():
